@@ -6,6 +6,7 @@
 //!   vh smoke
 
 mod asm;
+mod crashlabel;
 mod fakebtc;
 mod hist;
 mod http;
@@ -71,6 +72,7 @@ fn main() {
                 extra: args[8..].to_vec(),
             };
             let out = PathBuf::from(&args[7]);
+            crashlabel::install(&out.with_extension("crash"));
             let rep = props::worker(&ctx);
             std::fs::write(&out, serde_json::to_string(&rep).unwrap()).expect("write worker report");
             // scratch databases of this process
@@ -179,12 +181,22 @@ pub fn run_parent(id: &str, tier: &str) -> i32 {
                 match report::read_report(&r.out) {
                     Some(rep) => merged.merge(rep),
                     None => {
-                        // A worker that died without a report: props that expect that (C09) handle it
-                        // themselves through sub-workers; here it is inconclusive.
-                        merged.inconclusive(format!("shard {} exited with {:?} without a report", r.shard, code));
+                        // A worker that died without a report. Where the worker only evaluates the code
+                        // under test on generated inputs (C14, C15, C13, C09) and left a crash label, the
+                        // death itself is the violation (allocation failures and aborts escape
+                        // catch_unwind); otherwise it is inconclusive.
+                        let label = std::fs::read_to_string(r.out.with_extension("crash")).unwrap_or_default();
+                        if !label.is_empty() && matches!(id, "C14" | "C15" | "C13" | "C09") {
+                            let what = format!("the worker process was killed ({:?}) while evaluating: {}", code, label);
+                            let replay = report::write_replay(id, seed, &serde_json::json!({"property": id, "seed": seed, "signature": format!("abort:{}", label.split(' ').next().unwrap_or("")), "what": what, "shard": r.shard}));
+                            merged.violations.push(report::Violation { sig: format!("abort:{}", label.split(' ').next().unwrap_or("")), what, replay });
+                        } else {
+                            merged.inconclusive(format!("shard {} exited with {:?} without a report{}", r.shard, code, if label.is_empty() { String::new() } else { format!(" (while: {})", label) }));
+                        }
                     }
                 }
                 let _ = std::fs::remove_file(&r.out);
+                let _ = std::fs::remove_file(r.out.with_extension("crash"));
                 continue;
             }
             i += 1;
